@@ -122,14 +122,15 @@ Validated(fam, items, hasBlock) == hasBlock
 \* traits the catalogue inner type of the "any" family (Vec<i32>, Vec<T>) does not offer
 AnyInnerLacks == {"Copy", "Display", "FromStr"}
 
-RustTraitConflict(fam, D, validated) ==
+RustTraitConflict(fam, ty, D, validated) ==
   \/ ("Copy" \in D /\ "Clone" \notin D)
   \/ ("Eq" \in D /\ "PartialEq" \notin D)
   \/ ("PartialOrd" \in D /\ "PartialEq" \notin D)
   \/ ("Ord" \in D /\ ("Eq" \notin D \/ "PartialOrd" \notin D))
   \/ ("From" \in D /\ "TryFrom" \in D)                 \* blanket TryFrom from From: conflicting impls
   \/ (fam = "any" /\ "From" \in D /\ validated)        \* generated From calls a `new` that does not exist
-  \/ (fam = "any" /\ D \cap AnyInnerLacks # {})        \* the catalogue inner type Vec<i32> has no Copy / Display / FromStr
+  \/ (fam = "any" /\ ty # "T" /\ D \cap AnyInnerLacks # {})   \* the catalogue inner types (Vec<i32>, ..) have no Copy / Display / FromStr;
+                                                             \* a bare type parameter gets the bound from the generated impl
 
 WrongFamilyTrait(fam, D) ==
   \/ (fam = "float" /\ "Hash" \in D)
@@ -157,7 +158,7 @@ Class(src) ==
       shape == ValShape(fam, val)
       mustReject ==
         \/ src.fieldvis # ""                                         \* visible inner field
-        \/ src.outer \in {"derive", "foreign"}                       \* #[derive] / foreign attribute
+        \/ src.outer \in {"derive", "foreign", "derive_path", "tool"}                       \* #[derive] / foreign attribute
         \/ UnknownSan(fam, san) \/ UnknownVal(fam, val)              \* unknown / wrong-family / wrong-case
         \/ \E t \in D : t \notin AllTraits
         \/ WrongFamilyTrait(fam, D)
@@ -174,7 +175,7 @@ Class(src) ==
         \/ \E t \in D : FeatureOfTrait(t) # "" /\ FeatureOfTrait(t) \notin src.feats
         \/ (HasBlock(src, "new_unchecked") /\ "new_unchecked" \notin src.feats)
         \/ HasBlock(src, "bogus")
-        \/ RustTraitConflict(fam, D, validated)
+        \/ RustTraitConflict(fam, src.ty, D, validated)
       dontCare ==
         \/ src.shape # "tuple"
         \/ LitAdjacentEmpty(fam, val)
@@ -194,7 +195,7 @@ Class(src) ==
 (* OPERATIONAL pipeline.  Each stage returns "" (pass) or the stage name.  *)
 
 OpParseMeta(src) ==
-  IF src.outer \in {"derive", "foreign"} THEN "meta:attr"          \* validate_supported_attrs / intercept_derive_macro
+  IF src.outer \in {"derive", "foreign", "derive_path", "tool"} THEN "meta:attr"          \* validate_supported_attrs / intercept_derive_macro
   ELSE IF src.shape # "tuple" THEN "meta:shape"
   ELSE IF src.fieldvis # "" THEN "meta:fieldvis"
   ELSE ""
@@ -261,7 +262,7 @@ OpGenerate(src) ==
 
 OpRustc(src) ==
   LET D == NRange(OpDer(src)) validated == HasValidateBlock(src) IN
-  IF RustTraitConflict(src.fam, D, validated) THEN "rustc:traits" ELSE ""
+  IF RustTraitConflict(src.fam, src.ty, D, validated) THEN "rustc:traits" ELSE ""
 
 OpStages(src) == <<OpParseMeta(src), OpParseBlocks(src), OpValidateGuard(src), OpValidateTraits(src), OpGenerate(src), OpRustc(src)>>
 
